@@ -315,7 +315,8 @@ pub fn gen_ja_valid(r: &mut Rng, region: RegionId) -> JaSpec {
             for b in v.iter_mut().take(8) {
                 *b = if r.chance(1, 2) { 0xFF } else { r.next_u32() as u8 | 0x03 };
             }
-            v[8] = r.next_u32() as u8 | 1;
+            // sometimes no 500 kHz channel at all (valid while the device uses a 125 kHz data rate)
+            v[8] = if r.chance(1, 3) { 0 } else { r.next_u32() as u8 | 1 };
             v[15] = 1;
         } else {
             for i in 0..5 {
@@ -330,4 +331,25 @@ pub fn gen_ja_valid(r: &mut Rng, region: RegionId) -> JaSpec {
         None
     };
     JaSpec { join_nonce: r.next_u32() & 0xFF_FFFF, net_id: r.next_u32() & 0xFF_FFFF, devaddr: r.next_u32(), dl_settings: if r.chance(1, 3) { 0 } else { dl }, rx_delay: r.below(16) as u8, cflist, tamper: Tamper::None }
+}
+
+/// A command list whose answers add up to 12..=18 bytes, so that the 15-byte answer queue is
+/// filled to (and just past) its limit at every possible command boundary.
+pub fn gen_answer_heavy(r: &mut Rng, region: RegionId) -> Vec<MacSpec> {
+    let target = r.range(12, 18) as usize;
+    let mut v = Vec::new();
+    let mut total = 0usize;
+    while total < target && v.len() < 12 {
+        let (m, alen) = match r.below(if region.is_fixed() { 4 } else { 6 }) {
+            0 => (MacSpec::DevStatus, 3),
+            1 => (MacSpec::RxTimingSetup { del: r.below(16) as u8 }, 1),
+            2 => (MacSpec::LinkAdr { dr: 15, pow: 15, mask: 0xFFFF, ctl: if region.is_fixed() { 0 } else { 6 }, nbtrans: 1 }, 2),
+            3 => (MacSpec::RxParamSetup { rx1off: 0, rx2dr: rr::rx2_default(region).1, freq: rr::rx2_default(region).0 / 100 }, 2),
+            4 => (MacSpec::NewChannel { idx: r.range(3, 15) as u8, freq: freq_in_band(r, region), drrange: 0x50 }, 2),
+            _ => (MacSpec::DlChannel { idx: r.below(2) as u8, freq: freq_in_band(r, region) }, 2),
+        };
+        total += alen;
+        v.push(m);
+    }
+    v
 }
